@@ -210,6 +210,36 @@ func c10targets() []c10target {
 				b, _ := asn1.Marshal(x)
 				muts = append(muts, b)
 			}
+			// coordinated edits: every non-empty subset of the six vectors {A, B, proof X, Y, D, F} shortened by 1, by 2, to nothing,
+			// or lengthened by one (a guard that compares the vectors with each other instead of with the expected length is
+			// satisfied by such a request)
+			var pr ps.RawBlindCorrectProof
+			if _, err := asn1.Unmarshal(r.CorrectFormProof, &pr); err == nil {
+				resize := func(v [][]byte, d int) [][]byte {
+					switch {
+					case d == 99:
+						return nil
+					case d > 0:
+						return append(append([][]byte{}, v...), v[0])
+					default:
+						return append([][]byte{}, v[:max(0, len(v)+d)]...)
+					}
+				}
+				for mask := 1; mask < 64; mask++ {
+					for _, d := range []int{-1, -2, 99, 1} {
+						x, y := r, pr
+						vs := []*[][]byte{&x.A, &x.B, &y.X, &y.Y, &y.D, &y.F}
+						for bit, v := range vs {
+							if mask&(1<<bit) != 0 {
+								*v = resize(*v, d)
+							}
+						}
+						x.CorrectFormProof, _ = asn1.Marshal(y)
+						b, _ := asn1.Marshal(x)
+						muts = append(muts, b)
+					}
+				}
+			}
 			// fewer / more ciphertext components, invalid points
 			x := r
 			x.A = r.A[:1]
@@ -329,7 +359,7 @@ func c10targets() []c10target {
 }
 
 func unitC10crypto(e common.Env, p *common.Part) {
-	p.Rule = "genuine objects of this build (DKG messages of every round and class captured from an honest run, stored data, signing requests, partial signatures, public parameters, proofs), mutated: prefixes, extensions, header bytes, bit flips, asn.1-aware edits (element length +-1, dropped, duplicated, emptied, shortened, garbage; also inside embedded blobs) and fed to: BLS/PS ClassifyMsg+OnMsg of a party that runs KeyGen (sources = the other session members), SetShareData+ThresholdPK+Sign, TPS.Sign, bls.Verifier.Init/AggregateSignatures/Verify, ps.Verifier.Init/Verify, ps.Prover.Init/UnBlind; oracle: no panic (caught per call, so one run lists every crash site), KeyGen returns after its context ends; distinct key = (entry point, input hash); non-trivial always"
+	p.Rule = "genuine objects of this build (DKG messages of every round and class captured from an honest run, stored data, signing requests, partial signatures, public parameters, proofs), mutated: prefixes, extensions, header bytes, bit flips, asn.1-aware edits (element length +-1, dropped, duplicated, emptied, shortened, garbage; also inside embedded blobs; every subset of a signing request's six vectors resized together) and fed to: BLS/PS ClassifyMsg+OnMsg of a party that runs KeyGen (sources = the other session members), SetShareData+ThresholdPK+Sign, TPS.Sign, bls.Verifier.Init/AggregateSignatures/Verify, ps.Verifier.Init/Verify, ps.Prover.Init/UnBlind; oracle: no panic (caught per call, so one run lists every crash site), KeyGen returns after its context ends; distinct key = (entry point, input hash); non-trivial always"
 	p.Assumptions = append(p.Assumptions, "documented API-contract panics on local misuse (AggregateSignatures with an unknown signer or mismatching counts, Prover.Blind with the wrong length, ThresholdPK before Init/SetShareData) are not input from the network or an untrusted client and are not exercised")
 	for i, t := range c10targets() {
 		if !e.Mine(i) {
